@@ -1,4 +1,5 @@
 """C09 - undecodable files never disturb the output for the others (E3: one junk entry added to a good directory)."""
+import itertools
 import json
 from mc import strictjson
 import os
@@ -72,6 +73,7 @@ def plan(tier, seed):
             ch.append({'k': 'corrupt', 'lo': lo, 'hi': min(n, lo + step), 'vals': 'quick',
                        'modes': ['plid_junk', 'src', 'srcx', 'lx', 'ax', 'j']})
     ch.append({'k': 'struct'})
+    ch.append({'k': 'unreadable'})
     for lo in range(0, 256, 64):
         ch.append({'k': 'bytes', 'lo': lo, 'hi': lo + 64})
     if tier == 'thorough':
@@ -107,6 +109,13 @@ def put_junk(d, name, j):
         elif j[1] == 'named-like-pel':
             with open(os.path.join(path, '2024_50000B01'), 'wb') as f:
                 f.write(pelgen.encode_pel(pelgen.pel_from_spec(GOOD['b_good1'])))
+    elif j[0] == 'link':
+        # a directory entry that cannot be opened: dangling symbolic link / link loop
+        os.symlink(path if j[1] == 'loop' else os.path.join(d, 'no-such-target'), path)
+    elif j[0] == 'fault':
+        # a complete PEL whose open() or read() fails (errno injected by the driver's open shadow)
+        with open(path, 'wb') as f:
+            f.write(junk_base())
     else:
         with open(path, 'wb') as f:
             f.write(junk_bytes(j))
@@ -114,7 +123,9 @@ def put_junk(d, name, j):
 
 
 def rm_junk(path):
-    if os.path.isdir(path):
+    if os.path.islink(path):
+        os.unlink(path)
+    elif os.path.isdir(path):
         shutil.rmtree(path)
     else:
         os.unlink(path)
@@ -139,6 +150,39 @@ class Env:
         with open(self.excl, 'w') as f:
             f.write('BD8D9999\n11001003\n')
         self.good_cache = {}
+        self.open_fn = None
+
+    def faulty_open(self, faults):
+        """open() as the tool sees it: {file name: ('open'|'read', errno)} fail, everything else is the real open"""
+        import builtins
+        import errno as _errno
+
+        class FailingRead:
+            def __init__(self, f, code):
+                self.f, self.code = f, code
+
+            def read(self, *a):
+                raise OSError(self.code, os.strerror(self.code))
+
+            def __enter__(self):
+                return self
+
+            def __exit__(self, *exc):
+                self.f.close()
+                return False
+
+            def __getattr__(self, name):
+                return getattr(self.f, name)
+
+        def fn(path, mode='r', *a, **kw):
+            hit = faults.get(os.path.basename(str(path)))
+            if hit and 'r' in mode and 'out_' not in str(path):
+                code = getattr(_errno, hit[1])
+                if hit[0] == 'open':
+                    raise OSError(code, os.strerror(code), str(path))
+                return FailingRead(builtins.open(path, mode, *a, **kw), code)
+            return builtins.open(path, mode, *a, **kw)
+        return fn
 
     def close(self):
         shutil.rmtree(self.root, ignore_errors=True)
@@ -157,7 +201,7 @@ class Env:
             for f in os.listdir(out):
                 os.unlink(os.path.join(out, f))
         core.arm(30)
-        r = clidrv.run_main(self.argv(which, mode, every))
+        r = clidrv.run_main(self.argv(which, mode, every), open_fn=self.open_fn)
         core.disarm()
         files = None
         if mode == 'j':
@@ -214,11 +258,15 @@ def check(env, juncs, mode, every, case):
     for pos, j in juncs:
         paths.append(put_junk(os.path.join(env.root, 'both'), POS_NAMES[pos] + ('2' if paths and pos == juncs[0][0] else ''), j))
         put_junk(os.path.join(env.root, 'solo'), os.path.basename(paths[-1]), j)
+    faults = {os.path.basename(p): (j[1], j[2]) for p, (_, j) in zip(paths, juncs) if j[0] == 'fault'}
     try:
+        env.open_fn = env.faulty_open(faults) if faults else None
         rs, fs = env.run('solo', mode, every)
         rb, fb = env.run('both', mode, every)
+        env.open_fn = None
         rg, fg = env.good(mode, every)
     finally:
+        env.open_fn = None
         for p in paths:
             rm_junk(p)
             rm_junk(os.path.join(env.root, 'solo', os.path.basename(p)))
@@ -319,6 +367,18 @@ def run_chunk(chunk):
                     for mode in ALL_MODES:
                         for every in (True, False):
                             _do(res, env, [(pos, j)], mode, every, step=97)
+        elif k == 'unreadable':
+            # entries that cannot be opened or read at all ("unreadable files"): the others must be reported as without them
+            juncs = [('link', 'dangling'), ('link', 'loop'), ('fault', 'open', 'EACCES'), ('fault', 'open', 'EIO'),
+                     ('fault', 'open', 'ENOENT'), ('fault', 'open', 'EMFILE'), ('fault', 'read', 'EIO'), ('fault', 'read', 'EISDIR')]
+            for j in juncs:
+                for pos in ('a', 'c', 'g'):
+                    for mode in ALL_MODES:
+                        for every in (True, False):
+                            _do(res, env, [(pos, j)], mode, every, step=97)
+            for j1, j2 in itertools.product(juncs[:3] + juncs[6:7], repeat=2):
+                for mode in ALL_MODES:
+                    _do(res, env, [('a', j1), ('g', j2)], mode, True, step=97)
         elif k == 'bytes':
             for v in range(chunk['lo'], chunk['hi']):
                 for mode in ALL_MODES:
